@@ -343,6 +343,41 @@ def charge_rules(P, chk):
                 "%d add_charges calls" % len(calls), "3 call sites")
 
 
+
+def calendar_date_rule(P, chk):
+    """A camt date is the calendar date the bank wrote.  `<Dt>` is a plain date; `<DtTm>` carries an offset, and its date
+    is the date *at that offset*: the timestamp type must keep the written offset (DateTime<FixedOffset>) or be naive -
+    DateTime<Utc> / DateTime<Local> convert the instant while parsing and move times near midnight to the neighbouring
+    day (seed C18-E) - and as_naive_date takes the date without converting the zone."""
+    D = "okane::import::iso_camt053::xmlnode::Date"
+    a = P.adts.get(D)
+    if not a:
+        chk.anchor_missing("xmlnode::Date not found")
+        return
+    tys = [(v["name"], f["ty"]) for v in a.get("variants", []) for f in v.get("fields", [])]
+    chk.floor("payload types of xmlnode::Date", len(tys), 2)
+    for vn, ty in tys:
+        t_ = norm(ty)
+        ok = True
+        if "DateTime<" in t_:
+            ok = "FixedOffset" in t_
+        chk.require(ok, R_DATE, "xmlnode::Date::%s|timestamp keeps the offset it was written with" % vn, "cli/src/import/iso_camt053/xmlnode.rs",
+                    "payload type is %s" % t_, "chrono::DateTime<chrono::FixedOffset>, NaiveDateTime or NaiveDate")
+    b = P.maybe_body(D + "::as_naive_date")
+    if b is None:
+        chk.anchor_missing("xmlnode::Date::as_naive_date not found")
+        return
+    chk.analysed(b)
+    bad = [short_(callee_def(t)) for bb, t in b.calls() if short_(callee_def(t)) in
+           ("with_timezone", "naive_utc", "to_utc", "date_naive_utc", "fixed_offset", "timestamp", "from_utc_datetime", "and_utc")]
+    chk.require(not bad, R_DATE, "xmlnode::Date::as_naive_date|local calendar date, no zone conversion", b.loc(),
+                "calls %s" % bad if bad else "no zone conversion", "date_naive() / naive_local().date() of the value as written")
+
+
+def short_(n):
+    return (n or "").rsplit("::", 1)[-1]
+
+
 def run(P, chk, tier):
     chk.rule(R_SIGN, "credit is positive, debit negative, and every amount is signed with its own object's indicator")
     chk.rule(R_DATE, "value date (else booking date) as the date, booking date as the effective date")
@@ -352,6 +387,7 @@ def run(P, chk, tier):
     chk.rule(importers.R_ROWS, "an entry without details and every detail of a batched entry become one transaction each")
     sign_rules(P, chk)
     date_rules(P, chk)
+    calendar_date_rule(P, chk)
     balance_rules(P, chk)
     no_reorder(P, chk)
     order_rule(P, chk)
